@@ -185,8 +185,9 @@ def _arena_pipeline(tier, focus, variants, key):
         g = arena_pipeline(tier, "general", variants)
         mc = g["mc"]
         return _arena_pipeline_rest(tier, focus, variants, key, t0, thorough, wd, bins, mc, None)
-    mc = tlc("MC_Arena", "MC_Arena_thorough.cfg" if thorough else "MC_Arena.cfg", workers=10,
-             timeout=3000 if thorough else 900, xmx="12g")
+    # (thorough: 114 M states generated, 1.9 M distinct: one hour with 8 workers on a busy 16-core machine)
+    mc = tlc("MC_Arena", "MC_Arena_thorough.cfg" if thorough else "MC_Arena.cfg", workers=14 if thorough else 10,
+             timeout=5 * 3600 if thorough else 1500, xmx="12g")
     require_ok(mc, "MC_Arena")
     # focused configuration: exclusive-borrow collections whose growth fails while several chunks exist (7 steps deep;
     # this is the configuration on which TLC found the defect fixed by /repo 5e73d20)
